@@ -914,6 +914,14 @@ REGRESS = [
     ('short r11[] = { [3] = 1, 2, [1] = 7 };', 'r11', None),
     ('struct E15 { int p; }; struct A15 { struct E15 a[3]; int b; }; struct A15 r15 = { { { 1 }, { }, { 5 } }, 7 };', 'r15', None),
     ('struct S16 { int :32; int a; int b; }; struct S16 r16 = { .a = 7, 8 };', 'r16', None),
+    # objects declared before their type is complete: image, size and alignment of the completed type
+    ('struct L17 r17; struct L17 { long a; char c; }; struct L17 r17 = { 5, 6 };', 'r17', None),
+    ('union L18 r18; union L18 { char c[3]; int i; };', 'r18', None),
+    ('extern struct L19 r19; struct L19 { char c; _Alignas(16) short h; }; struct L19 r19 = { 1, 2 };', 'r19', None),
+    # a numeric escape followed by non-ASCII source characters in the same literal: the characters are still encoded
+    ('struct S20 { char s[8]; char t[6]; }; struct S20 r20 = { "\\1\u00e9", "\\x7f\u20ac" };', 'r20', None),
+    ('unsigned short r21[] = u"\\1\U0001f600\\2\u00e9";', 'r21', None),
+    ('char r22[] = "\\33[1m\u00b5s" "\\0\u00b5";', 'r22', None),
 ]
 # known findings: probed on every run (static objects; expected bytes from gcc)
 KNOWN_STATIC = [
@@ -937,13 +945,14 @@ def run_regress(ctx, R):
     p = os.path.join(ctx.tmp, 'regress')
     open(p + '.c', 'w').write(src)
     rc, o, e = sh('gcc -std=gnu11 -w -O0 -o %s %s.c' % (p, p), timeout=120)
-    exp = {}
+    exp, expal = {}, {}
     if rc == 0:
         rc, o, e = run_limited([p], timeout=20)
         for line in txt(o).split('\n'):
             f = line.split(' ')
             if f[0] == 'OBJ':
                 exp[f[1]] = bytes.fromhex(f[4])
+                expal[f[1]] = int(f[3])
     if len(exp) != len(REGRESS):
         ctx.broken('correspondence', 'regress-gcc', 'gcc reference for the fixed corpus failed: ' + txt(e)[-500:])
         return 0
@@ -959,6 +968,8 @@ def run_regress(ctx, R):
         got = datas.get('$' + name, {}).get('bytes')
         if got != exp[name]:
             R.viol.append(('fixed corpus: `%s` gives %s, expected %s' % (decl, got.hex() if got is not None else None, exp[name].hex()), key or 'regress-' + name, decl))
+        elif datas['$' + name]['align'] != expal[name]:
+            R.viol.append(('fixed corpus: `%s` is defined with alignment %d, its type has alignment %d' % (decl, datas['$' + name]['align'], expal[name]), key or 'regress-' + name, decl))
     # automatic probes: gcc runs the function, cproc's stores are executed
     src = HEADER.replace('void sink(void *);', '') + '#include <stdio.h>\nstatic unsigned long cursz;\nstatic void sink(void *p) { for (unsigned long i = 0; i < cursz; i++) printf("%02x", ((unsigned char *)p)[i]); printf("\\n"); }\nvoid gfn(void) {} void gfn2(void) {}\n'
     for k, (decl, body, size, key) in enumerate(AUTO_PROBES):
